@@ -460,7 +460,7 @@ class Reaction:
         return new
     
     def __sub__(self, rxn):
-        if rxn == 0 or rxn is None or not rxn.has_reaction(): return self
+        if rxn == 0 or rxn is None or not rxn.has_reaction(): return self.copy()
         rxn = self._math_compatible_reaction(rxn)
         stoichiometry = self._stoichiometry*self.X - rxn._stoichiometry*rxn.X
         rxn._stoichiometry = stoichiometry/-(stoichiometry[rxn._reactant_index])
